@@ -111,6 +111,12 @@ def make_ctx(vt, inst, f):
                     r |= (((v >> (i * eb)) & ((1 << eb) - 1)) % (eb + 1)) << (i * eb)
                 return r
             argspecs.append((bits, eb, dom))
+        elif kind == "VI2":
+            t = T.arg(k, 0, bits)
+            argspecs.append((bits, vt.eb, None))
+            c.args[nm] = t
+            argterms.append(t)
+            continue
         elif kind in ("V", "VI"):
             t = T.arg(k, 0, bits)
             argspecs.append((bits, vt.eb if kind == "V" else (bits // vt.n), None))
